@@ -10,6 +10,7 @@ import (
 	"go/constant"
 	"go/token"
 	"go/types"
+	"regexp"
 	"strings"
 
 	"golang.org/x/tools/go/packages"
@@ -121,6 +122,17 @@ func errorPaths(c *Ctx, r *Repo, rule string, p *packages.Package, fd *ast.FuncD
 					break
 				}
 			}
+			if _, ok := allowed[key]; !ok {
+				// the same operation seen from inside a private helper of the owner: what was a field of the
+				// owner's parameter (ARG1.FileName) is the helper's own parameter (ARG1)
+				for _, owner := range ownerChain(p, fd)[1:] {
+					for k := range allowed {
+						if strings.HasPrefix(k, owner+"|") && argAbstract(strings.TrimPrefix(k, owner+"|")) == argAbstract(seen.Expr) {
+							key = k
+						}
+					}
+				}
+			}
 			if why, ok := allowed[key]; ok {
 				c.OK(rule, key, r.Pos(seen.Pos), "allowed fallback: "+why)
 				continue
@@ -180,6 +192,23 @@ func discardedErrors(c *Ctx, r *Repo, rule string, p *packages.Package, allowed 
 				if why, ok := allowed[key]; ok {
 					c.OK(rule, key, r.Pos(call.Pos()), "accepted idiom: "+why)
 					return
+				}
+				// a helper shared by several functions: accepted when it is accepted for every one of them
+				if callers := callersOf(p, fd); len(callers) > 1 {
+					all := true
+					for _, g := range callers {
+						hit := false
+						for _, owner := range ownerChain(p, g) {
+							if _, ok := allowed[owner+"|"+how+"|"+name]; ok {
+								hit = true
+							}
+						}
+						all = all && hit
+					}
+					if all {
+						c.OK(rule, key, r.Pos(call.Pos()), "accepted idiom for every caller of the shared helper")
+						return
+					}
 				}
 				c.Fail(rule, key, r.Pos(call.Pos()), fmt.Sprintf("%s %s the error returned by %s", fk, how, name))
 			}
@@ -356,4 +385,34 @@ func unexaminedErrors(c *Ctx, r *Repo, rule string, p *packages.Package, fd *ast
 			}
 		}
 	}
+}
+
+var argPathRe = regexp.MustCompile(`\bARG\d+(\.[A-Za-z_]\w*)*`)
+
+// argAbstract prints every parameter (and field path of a parameter) as ARG.
+func argAbstract(s string) string { return argPathRe.ReplaceAllString(s, "ARG") }
+
+// callersOf: the functions of the package that refer to the unexported function fd (nil for exported ones).
+func callersOf(p *packages.Package, fd *ast.FuncDecl) []*ast.FuncDecl {
+	fn, _ := p.TypesInfo.Defs[fd.Name].(*types.Func)
+	if fn == nil || fn.Exported() {
+		return nil
+	}
+	var out []*ast.FuncDecl
+	for _, g := range pkgFuncDecls(p) {
+		if g == fd {
+			continue
+		}
+		found := false
+		ast.Inspect(g.Body, func(n ast.Node) bool {
+			if id, ok := n.(*ast.Ident); ok && p.TypesInfo.Uses[id] == fn {
+				found = true
+			}
+			return !found
+		})
+		if found {
+			out = append(out, g)
+		}
+	}
+	return out
 }
